@@ -56,29 +56,70 @@ func BFS[S any](env *Env, o BFSOpts[S]) (states int64, transitions int64) {
 		var next []Node[S]
 		done := 0
 		capped := false
+		// Successors are computed in parallel but merged sequentially in job
+		// order, so that the representative kept for a set of equal-key states
+		// (and with it the rest of the enumeration) does not depend on scheduling.
+		type result struct {
+			s    S
+			key  uint64
+			ok   bool
+			done bool
+		}
+		results := make([]result, len(jobs))
+		// best[key] = smallest job index seen so far for a key that is new in
+		// this level; larger indices are dropped at once (bounded memory), the
+		// survivor is the same whatever the scheduling. `seen` is not written
+		// during the parallel phase.
+		best := map[uint64]int{}
 		ParallelForCount(env, len(jobs), &done, func(i int) {
 			j := jobs[i]
 			s, ok := o.Step(j.n, j.op)
 			env.R.Transitions.Add(1)
 			if !ok {
+				results[i] = result{done: true}
 				return
 			}
 			k := Hash(o.Key(s))
 			mu.Lock()
-			if _, dup := seen[k]; !dup {
+			defer mu.Unlock()
+			results[i] = result{key: k, done: true}
+			if _, dup := seen[k]; dup {
+				return
+			}
+			if cur, have := best[k]; have {
+				if cur < i {
+					return
+				}
+				var zero S
+				results[cur].s, results[cur].ok = zero, false
+			}
+			best[k] = i
+			results[i].s, results[i].ok = s, true
+		})
+		mu.Lock()
+		for i := range results {
+			r := &results[i]
+			if !r.done || !r.ok {
+				continue
+			}
+			j := jobs[i]
+			if _, dup := seen[r.key]; !dup {
 				if o.MaxStates > 0 && len(seen) >= o.MaxStates {
 					capped = true
 				} else {
-					seen[k] = struct{}{}
+					seen[r.key] = struct{}{}
 					p := make([]string, len(j.n.Path)+1)
 					copy(p, j.n.Path)
 					p[len(j.n.Path)] = j.op
-					next = append(next, Node[S]{State: s, Path: p, Depth: depth + 1})
+					next = append(next, Node[S]{State: r.s, Path: p, Depth: depth + 1})
 					env.R.States.Add(1)
 				}
 			}
-			mu.Unlock()
-		})
+			var zero S
+			r.s = zero
+		}
+		mu.Unlock()
+		results = nil
 		transitions += int64(done)
 		if capped {
 			env.R.NotExhaustive(fmt.Sprintf("state cap %d hit at depth %d", o.MaxStates, depth+1))
